@@ -11,7 +11,7 @@ import vlib
 
 HERE = os.path.dirname(os.path.abspath(__file__))
 PROOFS = ["MgProof.C12.Lemmas", "MgProof.C12.LemmasStream", "MgProof.C12.LemmasAes", "MgProof.C12.LemmasAesKey",
-          "MgProof.C12.LemmasDes", "MgProof.C12.LemmasExtra", "MgProof.C12.LemmasApi", "MgProof.C12.Props", "MgProof.C12.Kat"]
+          "MgProof.C12.LemmasDes", "MgProof.C12.LemmasExtra", "MgProof.C12.LemmasApi", "MgProof.C12.Props", "MgProof.C12.PropsParity", "MgProof.C12.Kat"]
 GREP = ["MgModel/C12", "MgProof/C12", "MgModel/Common", "Drv/C12.lean"]
 REPO_SRCS = ["muggle/c/crypt/aes.c", "muggle/c/crypt/des.c", "muggle/c/crypt/tdes.c",
              "muggle/c/crypt/parity.c", "muggle/c/crypt/crypt_utils.c",
@@ -21,7 +21,7 @@ REPO_SRCS = ["muggle/c/crypt/aes.c", "muggle/c/crypt/des.c", "muggle/c/crypt/tde
 TRUSTED = [
     "Lean 4.33 kernel; axioms as printed by the audit (subset of propext, Classical.choice, Quot.sound)",
     "tie A: checks/C12/gentables.py (textual extraction of the AES/DES tables from crypt/internal/*.c, "
-    "des.c, crypt/openssl/openssl_des.c), compared with lean/MgModel/C12/Tables.lean on every run",
+    "des.c, crypt/openssl/openssl_des.c, and the parity tables of crypt/parity.c), compared with lean/MgModel/C12/Tables.lean on every run",
     "tie B: harness/c12/seq_crypt.c + lib/vlib.py comparison; clang-14 -O1 ASan/UBSan build with "
     "MUGGLE_CRYPT_OPTIMIZATION=1 (the only configuration CMakeLists.txt allows), little-endian target",
     "that the optimised block primitives of crypt/openssl/*.c (bit-sliced AES, SP-table DES) compute the "
@@ -380,8 +380,30 @@ def gen_kats():
 # spec-level judge on the implementation's own output
 # ---------------------------------------------------------------------------
 
+def gen_parity():
+    """crypt/parity.c on its whole domain (every unsigned char), plus out-of-domain requests"""
+    return [["parity %d" % b for b in range(256)], ["parity 256", "parity -1", "parity 7"]]
+
+
+def judge_parity(ops, out):
+    """reference parity computed here (bit count), on the implementation's own answers"""
+    for o, line in zip(ops, out):
+        w = o.split()
+        if w[0] != "parity" or not w[1].lstrip("-").isdigit() or not 0 <= int(w[1]) <= 255:
+            continue
+        b = int(w[1])
+        odd = bin(b).count("1") % 2
+        want = "ok %d %d %d %d" % ((b & 0xfe) | (1 - bin(b >> 1).count("1") % 2), (b & 0xfe) | (bin(b >> 1).count("1") % 2),
+                                   odd, 1 - odd)
+        if line != want:
+            return "parity of byte %d: implementation answers %r, bit counting says %r" % (b, line, want)
+    return None
+
+
 def make_judge(kat_expect):
     def judge(ops, out):
+        if ops and ops[0].startswith("parity "):
+            return judge_parity(ops, out)
         exp = kat_expect.get(tuple(ops))
         if exp:
             for j, want in exp.items():
@@ -439,7 +461,8 @@ def main(ctx):
     ctx.cov["trusted_base"] = TRUSTED
     ctx.assumptions += TRUSTED[2:]
     ctx.cov["rule"] = (
-        "known-answer vectors of FIPS-197 / SP 800-38A / DES + corpus; bounded-exhaustive: every "
+        "known-answer vectors of FIPS-197 / SP 800-38A / DES + corpus; crypt/parity.c on all 256 bytes "
+        "(exhaustive: its whole domain) + out-of-domain requests; bounded-exhaustive: every "
         "algorithm(5) x mode(5) x direction(2) x length 0..L x every 2-chunk split (thorough: also every "
         "3-chunk split of the short messages), round trip; seeded "
         "random: structured keys (zero/ones/single-bit/weak+semi-weak DES/degenerate 3DES), IVs (incl. "
@@ -457,7 +480,7 @@ def main(ctx):
         ctx.broken.append("harness-build: " + str(e)[:500])
         return
     kats, expect = gen_kats()
-    cases = kats + gen_malformed(ctx) + gen_exhaustive(ctx) + gen_random(ctx)
+    cases = kats + gen_parity() + gen_malformed(ctx) + gen_exhaustive(ctx) + gen_random(ctx)
     vlib.seq_correspondence(ctx, hcmd, dcmd, cases, nontrivial=nontrivial, keep_prefix=2,
                             judge=make_judge(expect), signature_of=signature_of, timeout=1500)
     ctx.cov["exhaustive"] = True
